@@ -294,6 +294,7 @@ func cmdCheck(args []string) int {
 				os.Exit(2)
 			}
 		}()
+		curP = c.P
 		pd.Rules(c)
 		if tier == "thorough" {
 			c.thorough(pd)
